@@ -665,7 +665,18 @@ def render(spec, *, cname=None, register=True):
                     if k in declared:
                         getattr(tlists[k], c["group"])(fn)
 
+    def events_first(ns):
+        # the id-less Event() attributes are written at the top of the class body, before the states (declaration order of a
+        # class body is free)
+        if style.get("events_first"):
+            first = {e: v for e, v in placeholders.items() if ns.get(e) is v}
+            rest = {k: v for k, v in ns.items() if k not in first}
+            ns.clear()
+            ns.update(first)
+            ns.update(rest)
+
     declare_all([d for d in plan if not touches_ext(d)], ns, {i for i in range(len(states)) if i != ext})
+    events_first(ns)
 
     def __init__(self, Hh=None, *args, **kw):
         if isinstance(Hh, H):
@@ -686,6 +697,7 @@ def render(spec, *, cname=None, register=True):
             base_cls = types.new_class(cname + "_base", (StateMachine,), {}, lambda d: d.update(ns))
         setattr(HARNESS_MODULE, cname + "_base", base_cls)
         declare_all([d for d in plan if touches_ext(d)], sub_ns, {ext})
+        events_first(sub_ns)
         sub_ns.update({"__module__": __name__, "__qualname__": cname})
         cls = types.new_class(cname, (base_cls,), kwds, lambda d: d.update(sub_ns))
     elif style.get("inherit"):
